@@ -435,6 +435,12 @@ func (in *Interp) fieldAddr(th *Thread, p Ptr, f int) Ptr {
 func (in *Interp) elemPtr(arr *Cell, idx *Term, lo, hi int) Ptr {
 	tb := in.tb
 	if idx.IsConst() {
+		if idx.Val >= uint64(arr.N) {
+			if in.guard != nil {
+				panic(ifconvAbort{}) // speculative out-of-range access inside an if-converted region
+			}
+			panic(unsupported{"internal: constant index out of range after bounds check"})
+		}
 		return mkPtr(tb, in.kid(arr, int(idx.Val)))
 	}
 	if hi-lo > in.cfg.MaxAlts {
